@@ -22,7 +22,7 @@ ASSUMPTIONS = ["z_k and y_m of a transformer are referred to the tap-adjusted LV
                "3W transformers with tap_at_star_point and a non-neutral tap are not compared winding by winding (only the star balance)",
                "tolerance 1e-5 MVA*max(1,sn/100) + 1e-6 relative on powers, 1e-6 relative on currents/loading"]
 
-PROFILE = netgen.profile(dcline=False, oos=0.04, open_prob=0.15, max_per_bus=2,
+PROFILE = netgen.profile(dcline=False, oos=0.04, open_prob=0.15, max_per_bus=2, slack_any_level=True,
                          branch_kinds={"line": 6, "impedance": 3, "bb": 2},
                          level_sets=netgen.LEVEL_SETS + [[110.0, 20.0, 0.4], [380.0, 110.0, 20.0], [220.0, 110.0, 10.0], [110.0, 20.0], [20.0, 0.4]] * 2,
                          bus_kinds={"load": 5, "sgen": 3, "gen": 1, "storage": 1, "shunt": 1, "ward": 2, "xward": 2, "motor": 0,
